@@ -622,8 +622,49 @@ func runC16(t *testing.T, r *engine.Run) {
 				keys = append(keys, k)
 			}
 			sort.Strings(keys)
-			op := tp.Choose(6, "op")
+			op := tp.Choose(7, "op")
 			switch {
+			case op == 6 && a == "C": // Reset: the whole input is replaced in one call (some keys kept as they are, some kept with new contents, some dropped, some new)
+				next := map[string]kObj{}
+				for _, k := range keys {
+					switch tp.Choose(3, "resetKeep") {
+					case 0: // dropped
+					case 1: // kept unchanged
+						next[k] = cur[k]
+					default: // kept, contents (labels incl. the indexed attribute, selector, value) redrawn
+						i := 0
+						for ; i < 6; i++ {
+							if fmt.Sprintf("n%d/c%d", i%2, i%3) == k {
+								break
+							}
+						}
+						o := mkC(i)
+						next[o.ResourceName()] = o
+						r.Probe("reset_changes_retained_key")
+					}
+				}
+				for n := tp.Choose(3, "resetAdd"); n > 0; n-- {
+					o := mkC(tp.Choose(6, "cidx"))
+					if _, ok := next[o.ResourceName()]; !ok {
+						next[o.ResourceName()] = o
+					}
+				}
+				for k := range cur {
+					delete(cur, k)
+				}
+				nks := make([]string, 0, len(next))
+				for k := range next {
+					nks = append(nks, k)
+				}
+				sort.Strings(nks)
+				list := make([]kObj, 0, len(next))
+				for _, k := range nks {
+					cur[k] = next[k]
+					list = append(list, next[k])
+				}
+				col.Reset(list)
+				r.Logf("C reset to %v", nks)
+				r.Probe("static_reset")
 			case op == 0 && len(keys) > 0: // delete
 				k := keys[tp.Choose(len(keys), "key")]
 				if a == "A" {
